@@ -397,7 +397,7 @@ func raceTier(c *Check, tier string, base uint64, st *Stats) []Found {
 		site := "unknown"
 		for _, ln := range strings.Split(rep, "\n") {
 			t := strings.TrimSpace(ln)
-			if strings.HasPrefix(t, "/repo/") {
+			if strings.HasPrefix(t, repoPrefix) {
 				site = t
 				if k := strings.Index(site, " "); k > 0 {
 					site = site[:k]
